@@ -23,6 +23,9 @@ type Clause struct {
 	Exprs []SExpr // modifies: list
 	Line  int
 	File  string
+	// Assumed: a postcondition given to callers but not checked against the body ("assumes": part of a stated model,
+	// listed in the evidence as an assumption)
+	Assumed bool
 }
 
 type LoopSpec struct {
@@ -220,7 +223,7 @@ func (cs *ContractSet) loadFile(path string) error {
 }
 
 var keywords = map[string]bool{"callback": true, "func": true, "extern": true, "iface": true, "lemmafn": true, "spec": true, "axiom": true, "lemma": true, "ghost": true, "ghostgroup": true,
-	"requires": true, "ensures": true, "modifies": true, "nopanic": true, "loop": true, "props": true, "results": true,
+	"requires": true, "ensures": true, "assumes": true, "modifies": true, "nopanic": true, "loop": true, "props": true, "results": true,
 	"params": true, "use": true, "decreases": true, "ghostparams": true, "callsite": true, "sets": true, "trusted": true, "checkcalls": true, "pure": true, "inline": true, "frame": true}
 
 func startsWithKeyword(s string) bool {
@@ -428,6 +431,13 @@ func (cs *ContractSet) addClause(c *Contract, w, rest string, line int, file str
 			return err
 		}
 		c.Ensures = append(c.Ensures, cl)
+	case "assumes":
+		cl, err := mk("ensures")
+		if err != nil {
+			return err
+		}
+		cl.Assumed = true
+		c.Ensures = append(c.Ensures, cl)
 	case "modifies":
 		takeMeta()
 		c.HasMod = true
@@ -550,7 +560,9 @@ func (c *Contract) views() []string {
 		}
 	}
 	for _, cl := range c.Ensures {
-		add(cl)
+		if !cl.Assumed {
+			add(cl)
+		}
 	}
 	for _, ls := range c.Loops {
 		for _, cl := range ls.Invariants {
